@@ -221,6 +221,8 @@ func (e *Env) unaryHandler(i int, ctx context.Context, dec func(interface{}) err
 				mc.Recv(mjoin)
 			}
 			e.where("")
+		case op == "dl":
+			e.noteDeadline(rr, ctx)
 		case op == "w":
 			e.where("handler:waitctx")
 			waitDone(ctx, e.native)
@@ -383,6 +385,8 @@ func (e *Env) handlerOps(i int, tn string, stream grpc.ServerStream, ops []strin
 		case strings.HasPrefix(op, "t:"):
 			stream.SetTrailer(hdrMD(op[2:]))
 			e.rec.ev(tn, op, "")
+		case op == "dl":
+			e.noteDeadline(rr, ctx)
 		case op == "w":
 			e.where("handler:waitctx")
 			waitDone(ctx, e.native)
@@ -447,6 +451,40 @@ type cli struct {
 
 func (e *Env) method(i int) string { return "/t.S/M" + strconv.Itoa(i) }
 
+// rpcCtx is the context of call i: the scenario's context, bounded by the call's own deadline if it has one.
+func (e *Env) rpcCtx(i int) context.Context {
+	d := e.sc.RPCs[i].Timeout
+	if d == "" {
+		return e.ctx
+	}
+	dur, err := time.ParseDuration(d)
+	if err != nil {
+		panic(err)
+	}
+	var ctx context.Context
+	if e.native {
+		ctx, _ = context.WithTimeout(e.ctx, dur)
+	} else {
+		ctx, _ = mc.WithTimeout(e.ctx, dur)
+	}
+	return ctx
+}
+
+// noteDeadline records how much time the handler's context has left (op "dl").
+func (e *Env) noteDeadline(rr *RPCRec, ctx context.Context) {
+	left := "none"
+	if dl, ok := ctx.Deadline(); ok {
+		if e.native {
+			left = "some"
+		} else {
+			left = mc.TimeUntil(dl).String()
+		}
+	}
+	e.nlock()
+	rr.SrvDeadline = append(rr.SrvDeadline, left)
+	e.nunlock()
+}
+
 // nlock / nunlock protect the observation record in native (free-running) mode,
 // where several client tasks and handler goroutines really run in parallel and
 // the harness itself must be free of data races; under the controlled scheduler
@@ -474,7 +512,7 @@ func (e *Env) clientOps(i int, tn string, c *cli, ops []string) {
 			own := e.own(req, tag(i, "c", 0), "Invoke")
 			ownD := e.own(&resp, tag(i, "d", 0), "Invoke")
 			e.where("client:Invoke")
-			err := e.ch.Invoke(e.ctx, e.method(i), req, &resp, e.callOpts(c)...)
+			err := e.ch.Invoke(e.rpcCtx(i), e.method(i), req, &resp, e.callOpts(c)...)
 			e.where("")
 			own.returned()
 			ownD.returned()
@@ -630,7 +668,7 @@ func (e *Env) runRPC(i int) {
 	if rpc.Kind != "unary" {
 		desc := &grpc.StreamDesc{StreamName: "M" + strconv.Itoa(i), ClientStreams: rpc.clientStreams(), ServerStreams: rpc.serverStreams()}
 		e.where("client:NewStream")
-		st, err := e.ch.NewStream(e.ctx, desc, e.method(i), e.callOpts(c)...)
+		st, err := e.ch.NewStream(e.rpcCtx(i), desc, e.method(i), e.callOpts(c)...)
 		e.where("")
 		if err != nil {
 			rr.NewStreamErr = es(err)
@@ -751,12 +789,19 @@ func (e *Env) body() {
 			e.rec.ev("canceller", "cancel", "")
 		})
 	}
-	for i := 1; i < len(e.sc.RPCs); i++ {
+	first := 0
+	if strings.Contains(e.sc.Opts, "seq0") {
+		// call 0 runs to completion before the others start: whatever the library remembers
+		// from one call is there when the next ones overlap
+		e.runRPC(0)
+		first = 1
+	}
+	for i := first + 1; i < len(e.sc.RPCs); i++ {
 		i := i
 		if len(e.sc.RPCs[i].Client) == 0 {
 			continue // driven from inside another RPC's handler ("N<i>")
 		}
 		e.goTask(fmt.Sprintf("c%d", i), func() { e.runRPC(i) })
 	}
-	e.runRPC(0)
+	e.runRPC(first)
 }
